@@ -73,6 +73,11 @@ pub fn run(case: &Value) -> Value {
             &name,
             libcnb::data::layer_content_metadata::LayerTypes { launch: false, build: true, cache: true },
         )),
+        "replace_metadata" => {
+            let mut t = toml::Table::new();
+            t.insert("version".to_string(), toml::Value::String("2".to_string()));
+            cause_res(verif_hooks::replace_layer_metadata(&layers, &name, Some(t)))
+        }
         // the public struct API: an uncached layer request deletes the existing layer and creates it afresh
         "recreate" => {
             let ctx = crate::c01::context(&layers);
